@@ -79,7 +79,7 @@ def tee(p):
         elif ctx == 'roll21':
             pipe = [rs.data.roll(2, 1, inner)]
         elif ctx == 'split':
-            pipe = [rs.data.split(C.KM['tup2'], inner)]
+            pipe = [rs.data.split(C.PRED['tup2'], inner)]
         err = []
         D.src(items).pipe(rs.state.with_memory_store(pipe)).subscribe(on_error=lambda e: err.append(repr(e)))
         ins, ok1 = D.lifetimes(head)
